@@ -97,6 +97,7 @@ func RunFamily(f *Family, tier string) int {
 	if err := sc.InitModule(); err != nil {
 		return infra(f.Prop, err)
 	}
+	tEnum := time.Now()
 	units, mc, err := Enumerate(f, sc, devs, tier)
 	if err != nil {
 		return infra(f.Prop, err)
@@ -108,6 +109,8 @@ func RunFamily(f *Family, tier string) int {
 	if f.Select != nil {
 		sel = f.Select(units, tier, rng)
 	}
+	dEnum := time.Since(tEnum).Seconds()
+	tExec := time.Now()
 	execs, err := Execute(f, sc, "u", sel, f.PackSize)
 	if err != nil {
 		return infra(f.Prop, err)
@@ -155,7 +158,10 @@ func RunFamily(f *Family, tier string) int {
 	if unobs*2 > len(execs) {
 		return infra(f.Prop, fmt.Errorf("%d of %d units could not be observed (generation or build failed), e.g. %v", unobs, len(execs), unobsSample))
 	}
+	dExec := time.Since(tExec).Seconds()
+	tVal := time.Now()
 	reports, tally, tr, err := Validate(f, sc, "tv", events, devs)
+	dVal := time.Since(tVal).Seconds()
 	if err != nil {
 		return infra(f.Prop, err)
 	}
@@ -291,8 +297,8 @@ func RunFamily(f *Family, tier string) int {
 			}
 		}
 	}
-	fmt.Printf("%s tier=%s seed=%d: TLC enumerated %d units (%d states, design invariants hold); replayed %d units in %d real programs; %d events validated by TLC: ok=%d unspecified=%d known=%d drift=%d violations=%d; unobservable units=%d; %.1fs\n",
-		f.Prop, tier, seed, len(units), mc.Distinct, len(execs), len(progs), len(events), tally.Ok, tally.Un, tally.Known, tally.Drift, tally.Viol, unobs, time.Since(t0).Seconds())
+	fmt.Printf("%s tier=%s seed=%d: TLC enumerated %d units (%d states, design invariants hold); replayed %d units in %d real programs; %d events validated by TLC: ok=%d unspecified=%d known=%d drift=%d violations=%d; unobservable units=%d; %.1fs (enumerate+design check %.0fs, generate+build+run %.0fs, trace validation %.0fs)\n",
+		f.Prop, tier, seed, len(units), mc.Distinct, len(execs), len(progs), len(events), tally.Ok, tally.Un, tally.Known, tally.Drift, tally.Viol, unobs, time.Since(t0).Seconds(), dEnum, dExec, dVal)
 	if confirmed > 0 {
 		for _, l := range vlines {
 			fmt.Println(l)
